@@ -88,6 +88,7 @@ inductive Obs where
   | ret (i : Nat) (r : String)
   | it (d now : Nat) (wake : Option Nat)
   | tx (d ifi : Nat) (v4 : Bool) (dest : String) (bytes : BList)
+  | rx (d ifi : Nat) (v4 : Bool) (src : String) (bytes : BList)
   | ev (d ch : Nat) (toks : List String)
   | closed (d ch : Nat)
   | ended (d : Nat) (panicked : Bool)
@@ -102,6 +103,7 @@ def parseObs (ts : List String) : Obs :=
     | ["it", d, now, "none"] => do pure (.it (← d.toNat?) (← now.toNat?) none)
     | ["it", d, now, w] => do pure (.it (← d.toNat?) (← now.toNat?) (some (← w.toNat?)))
     | ["tx", d, ifi, v4, dest, hex] => do pure (.tx (← d.toNat?) (← ifi.toNat?) (v4 == "1") dest (← bytesOfHex hex))
+    | ["rx", d, ifi, v4, src, hex] => do pure (.rx (← d.toNat?) (← ifi.toNat?) (v4 == "1") src (← bytesOfHex hex))
     | "ev" :: d :: ch :: rest => do pure (.ev (← d.toNat?) (← ch.toNat?) rest)
     | ["closed", d, ch] => do pure (.closed (← d.toNat?) (← ch.toNat?))
     | ["end", d, r] => do pure (.ended (← d.toNat?) (r == "panic"))
@@ -122,10 +124,12 @@ structure Iter where
   ended : Option Bool
   /-- indices of the API commands issued since the previous iteration of any daemon -/
   calls : List (Nat × String)
+  /-- datagrams read in this iteration: (ifIdx, v4, source, bytes), in arrival order -/
+  rx : List (Nat × Bool × String × BList) := []
   deriving Repr, Inhabited
 
 /-- group a trace into iterations; `ret` items before an iteration are attached to it -/
-def iterations (obs : List Obs) : List Iter :=
+def iterationsNoRx (obs : List Obs) : List Iter :=
   let (cur, pendingCalls, acc) :=
     obs.foldl (fun (st : Option Iter × List (Nat × String) × List Iter) o =>
       let (cur, calls, acc) := st
@@ -143,6 +147,24 @@ def iterations (obs : List Obs) : List Iter :=
       | _ => (cur, calls, acc)) (none, [], [])
   let _ := pendingCalls
   ((match cur with | some c => c :: acc | none => acc)).reverse
+
+/-- attach every `rx` item to the next iteration of its daemon -/
+def iterations (obs : List Obs) : List Iter :=
+  let base := iterationsNoRx obs
+  -- walk the observations again, numbering `it` items, to know after which iteration each rx came
+  let (_, rxs) := obs.foldl (fun (st : Nat × List (Nat × Nat × (Nat × Bool × String × BList))) o =>
+    let (n, acc) := st
+    match o with
+    | .it .. => (n + 1, acc)
+    | .rx d ifi v4 src b => (n, acc ++ [(n, d, (ifi, v4, src, b))])
+    | _ => (n, acc)) (0, [])
+  -- an rx seen after `n` iterations belongs to the first iteration with index >= n of daemon d
+  let (out, _) := base.zipIdx.foldl (fun (st : List Iter × List (Nat × Nat × (Nat × Bool × String × BList))) (p : Iter × Nat) =>
+    let (acc, pending) := st
+    let (it, k) := p
+    let (mine, rest) := pending.partition fun (n, d, _) => n ≤ k && d == it.d
+    (acc ++ [{ it with rx := mine.map (·.2.2) }], rest)) ([], rxs)
+  out
 
 /-- questions of a packet as (lower-cased name, qtype); `none` if the packet does not parse -/
 def questionsOf (b : BList) : Option (Bool × List (BList × Nat) × Nat) :=
